@@ -10,7 +10,7 @@
    PARTIAL   C05_program_balanced_partial (all skeleton programs whose compiled actions pass the static
              discipline — decidable, evaluated on every generated program by the check)
    REFUTED   C05_program_balanced_refuted (the discipline of the pinned compiler is not balanced on all
-             programs: self-assignment, loop conditions / bounds / headers with temporaries),
+             programs: loop conditions / bounds / headers with temporaries),
              C05_scalar_scalar_concat_refuted, C05_nul_text_concat_refuted *)
 From Coq Require Import List NArith Bool.
 Import ListNotations.
@@ -78,7 +78,6 @@ Print Assumptions C05_program_balanced_partial.
 
 (* REFUTED: `forall P, terminates normally -> balanced` is false for the discipline of the pinned tree *)
 Theorem C05_program_balanced_refuted :
-  (exists L, run_program 5 [] wit_self_assign = Some L /\ ~ balanced L) /\
   (exists L, run_program 5 [true; true; false] wit_while_cond = Some L /\ ~ balanced L) /\
   (exists L, run_program 5 [] wit_for_bound = Some L /\ ~ balanced L) /\
   (exists L, run_program 5 [] wit_continue_header = Some L /\ ~ balanced L) /\
